@@ -51,7 +51,8 @@ def gen_gspec(rng, levels, item_kind):
             return rng.choice([['Flatten'], ['Count'], ['First'], ['list', [['T', 'T', []]]], ['list', [['fn', 'len']]],
                                ['list', [['Auto', ['Sum']]]], ['list', [['Auto', ['Count']]]],
                                ['SumOfGroupSum']])
-        return rng.choice([['Merge'], ['Count'], ['First'], ['list', [['T', 'T', [['[', 'k']]]]]])
+        return rng.choice([['Merge'], ['Count'], ['First'], ['list', [['T', 'T', [['[', 'k']]]]],
+                           ['list', [['T', 'T', [['[', 'v']]]]], ['list', [['T', 'T', [['[', 'v']]], ['T', 'T', [['[', 'k']]]]]])
     if item_kind == 'int':
         keys = [rng.choice(INT_KEYS)]
         if rng.random() < 0.15:
@@ -76,7 +77,9 @@ def gen_items(rng, kind):
         return out
     if kind == 'list':
         return [{'t': 'list', 'v': [rng.randint(0, 9) for _ in range(rng.randint(0, 3))]} for _ in range(n)]
-    return [{'t': 'dict', 'v': [['k', rng.randint(0, 2)]] + ([[rng.choice(['a', 'b']), rng.randint(0, 9)]] if rng.random() < 0.7 else [])}
+    # ('v': now and then a value that compares equal to everything -- a value like any other)
+    return [{'t': 'dict', 'v': [['k', rng.randint(0, 2)], ['v', {'t': 'anyeq'} if rng.random() < 0.2 else rng.randint(0, 9)]]
+             + ([[rng.choice(['a', 'b']), rng.randint(0, 9)]] if rng.random() < 0.7 else [])}
             for _ in range(n)]
 
 
@@ -151,6 +154,9 @@ def plain(v):
             return [plain(x) for x in v['v']]
         if v['t'] == 'dict':
             return {k: plain(x) for k, x in v['v']}
+        if v['t'] == 'anyeq':
+            from ..collab import AnyEq
+            return AnyEq()
     return v
 
 
